@@ -79,6 +79,7 @@ type Universe struct {
 	// names of every state variable seen, with sorts
 	stateSorts map[string]string
 	typeConsts map[string]bool
+	mapTypes   map[string]*types.Map
 }
 
 type structInfo struct {
@@ -130,6 +131,17 @@ func loadUniverse(repo string, specFiles []string) (*Universe, error) {
 	}
 	for _, g := range u.Specs.Ghosts {
 		u.ghostSorts[g.Name] = g.Sort
+	}
+	// declare the value structs and slice sorts named in specifications
+	for key := range u.Specs.ValueStructs {
+		if n := u.findNamed(pkgs, key); n != nil {
+			if st, ok := n.Underlying().(*types.Struct); ok {
+				u.ensureStruct(n, st)
+			}
+		}
+	}
+	for _, el := range pendingSliceElems {
+		u.ensureSlice(el)
 	}
 	for short, p := range u.Pkgs {
 		u.indexPackage(short, p)
@@ -452,6 +464,10 @@ func (u *Universe) fieldVar(n *types.Named, field string) string {
 func (u *Universe) mapVars(m *types.Map) (dom, val string, ks, vs string) {
 	ks = u.sortOf(m.Key())
 	vs = u.sortOf(m.Elem())
+	if u.mapTypes == nil {
+		u.mapTypes = map[string]*types.Map{}
+	}
+	u.mapTypes[types.TypeString(m, func(p *types.Package) string { return pkgShort(p) })] = m
 	base := mangle(ks) + "." + mangle(vs)
 	return "Md." + base, "Mv." + base, ks, vs
 }
@@ -519,4 +535,37 @@ func (u *Universe) constInit(v *types.Var) *Term {
 		}
 	}
 	return nil
+}
+
+// findNamed resolves "pkg.Type" (short package name) among the loaded packages and their imports.
+func (u *Universe) findNamed(pkgs []*packages.Package, key string) *types.Named {
+	i := strings.Index(key, ".")
+	if i < 0 {
+		return nil
+	}
+	short, name := key[:i], key[i+1:]
+	seen := map[*packages.Package]bool{}
+	var found *types.Named
+	var visit func(p *packages.Package)
+	visit = func(p *packages.Package) {
+		if seen[p] || found != nil || p.Types == nil {
+			return
+		}
+		seen[p] = true
+		if pkgShort(p.Types) == short {
+			if obj := p.Types.Scope().Lookup(name); obj != nil {
+				if n, ok := obj.Type().(*types.Named); ok {
+					found = n
+					return
+				}
+			}
+		}
+		for _, imp := range p.Imports {
+			visit(imp)
+		}
+	}
+	for _, p := range pkgs {
+		visit(p)
+	}
+	return found
 }
